@@ -315,6 +315,45 @@ func (ln *lane) lockRange(lo *lockOwner) uint64 {
 	return uint64(ln.gidx)*1000 + (lo.nextRange%8)*10
 }
 
+// contend: with probability 1/2 the lock request goes for one of three
+// overlapping 20 byte ranges that the lock-owners of all lanes of all clients
+// compete for, mostly exclusively, so that requests get denied; otherwise for a range of the lane's own.
+func (ln *lane) contend(of *openFile, lo *lockOwner) (offset, length uint64, lt nfsv4.NfsLockType4) {
+	t := ln.w.t
+	lt = nfsv4.READ_LT
+	own := 2
+	if of.leaf == 0 {
+		own = 1
+	}
+	if t.Bool(own, 4) {
+		if of.access&2 != 0 && t.Bool(1, 2) {
+			lt = nfsv4.WRITE_LT
+		}
+		return ln.lockRange(lo), 10, lt
+	}
+	// (The server does not tie the lock type to the access the file was
+	// opened with, so exclusive locks contend on read-only files too.)
+	if t.Bool(2, 3) {
+		lt = nfsv4.WRITE_LT
+	}
+	return 9000 + uint64(t.Choice(3))*10, 20, lt
+}
+
+// pickHot prefers file#0, on which the lock-owners of all clients meet.
+func (ln *lane) pickHot(files []*openFile) *openFile {
+	t := ln.w.t
+	var hot []*openFile
+	for _, of := range files {
+		if of.leaf == 0 {
+			hot = append(hot, of)
+		}
+	}
+	if len(hot) > 0 && t.Bool(2, 3) {
+		return pick(t, hot)
+	}
+	return pick(t, files)
+}
+
 func (ln *lane) reqLockNew(of *openFile, lo *lockOwner) *request {
 	c := ln.cl
 	req := ln.w.newRequest(ln, kLockNew)
@@ -325,14 +364,12 @@ func (ln *lane) reqLockNew(of *openFile, lo *lockOwner) *request {
 	}
 	req.seqOpIdx = 1
 	req.valid = true
-	req.offset = ln.lockRange(lo)
-	lt := nfsv4.NfsLockType4(nfsv4.READ_LT)
-	if of.access&2 != 0 && ln.w.t.Bool(1, 2) {
-		lt = nfsv4.WRITE_LT
-	}
-	req.desc = fmt.Sprintf("LOCK new lock-owner=%s open-owner=%s open-seq=%d lock-seq=%d file#%d range=%d+10 type=%d", lo.key, of.o.key, seq, req.lseq, of.leaf, req.offset, lt)
+	var length uint64
+	var lt nfsv4.NfsLockType4
+	req.offset, length, lt = ln.contend(of, lo)
+	req.desc = fmt.Sprintf("LOCK new lock-owner=%s open-owner=%s open-seq=%d lock-seq=%d file#%d range=%d+%d type=%d", lo.key, of.o.key, seq, req.lseq, of.leaf, req.offset, length, lt)
 	return ln.finish(req, opPutFH(of.fh), &nfsv4.NfsArgop4_OP_LOCK{Oplock: nfsv4.Lock4args{
-		Locktype: lt, Offset: req.offset, Length: 10,
+		Locktype: lt, Offset: req.offset, Length: length,
 		Locker: &nfsv4.Locker4_TRUE{OpenOwner: nfsv4.OpenToLockOwner4{
 			OpenSeqid: seq, OpenStateid: of.sid, LockSeqid: req.lseq,
 			LockOwner: nfsv4.StateOwner4{Clientid: c.id, Owner: lo.key},
@@ -350,10 +387,12 @@ func (ln *lane) reqLockExist(lf *lockFile) *request {
 	}
 	req.seqOpIdx = 1
 	req.valid = true
-	req.offset = ln.lockRange(lf.lo)
-	req.desc = fmt.Sprintf("LOCK lock-owner=%s lock-seq=%d file#%d stateid=%x.%d range=%d+10", lf.lo.key, req.lseq, lf.of.leaf, lf.sid.Other, lf.sid.Seqid, req.offset)
+	var length uint64
+	var lt nfsv4.NfsLockType4
+	req.offset, length, lt = ln.contend(lf.of, lf.lo)
+	req.desc = fmt.Sprintf("LOCK lock-owner=%s lock-seq=%d file#%d stateid=%x.%d range=%d+%d type=%d", lf.lo.key, req.lseq, lf.of.leaf, lf.sid.Other, lf.sid.Seqid, req.offset, length, lt)
 	return ln.finish(req, opPutFH(lf.of.fh), &nfsv4.NfsArgop4_OP_LOCK{Oplock: nfsv4.Lock4args{
-		Locktype: nfsv4.READ_LT, Offset: req.offset, Length: 10,
+		Locktype: lt, Offset: req.offset, Length: length,
 		Locker: &nfsv4.Locker4_FALSE{LockOwner: nfsv4.ExistLockOwner4{LockStateid: lf.sid, LockSeqid: req.lseq}},
 	}})
 }
@@ -792,6 +831,10 @@ func (ln *lane) choose() (req *request, quit bool) {
 			}
 			return ln.reqOpen(o, "", access, h, pick(t, fs))
 		}
+		if t.Bool(1, 5) {
+			// The file everybody meets on (and contends for locks on).
+			return ln.reqOpen(o, w.blobNames[0], 1, 0, nil)
+		}
 		if t.Bool(1, 3) {
 			// A blob file (read-only).
 			if t.Bool(3, 4) {
@@ -829,7 +872,7 @@ func (ln *lane) choose() (req *request, quit bool) {
 			return ln.reqDowngrade(of, uint32(1+t.Choice(2)))
 		})
 		add(5, func() *request {
-			of := pick(t, files)
+			of := ln.pickHot(files)
 			lo := loOf(of.o)
 			for _, lf := range of.locks {
 				if lf.lo == lo && c.minor == 0 {
@@ -840,7 +883,18 @@ func (ln *lane) choose() (req *request, quit bool) {
 		})
 	}
 	if len(locks) > 0 {
-		add(3, func() *request { return ln.reqLockExist(pick(t, locks)) })
+		add(6, func() *request {
+			var hot []*lockFile
+			for _, lf := range locks {
+				if lf.of.leaf == 0 {
+					hot = append(hot, lf)
+				}
+			}
+			if len(hot) > 0 && t.Bool(2, 3) {
+				return ln.reqLockExist(pick(t, hot))
+			}
+			return ln.reqLockExist(pick(t, locks))
+		})
 		add(4, func() *request { return ln.reqLockU(pick(t, locks), t.Bool(1, 2)) })
 		if c.minor == 1 {
 			add(4, func() *request {
